@@ -167,7 +167,7 @@ Crash == /\ up /\ crashes < MaxCrashes
 HeadsOf(S) == {h \in S : ~\E x \in S : x # h /\ IsAnc(h, x)}
 \* (every store-point head is committed again: CommitBlock writes the quality first and the finalized checkpoint second,
 \* either may be the write the crash prevented; committing a fully committed head again changes nothing)
-Uncommitted == {h \in HeadsOf(dBlk) : IsSP(h) /\ Len(h) >= Len(dFin)}
+Uncommitted == {h \in HeadsOf(dBlk) : IsSP(h) /\ Len(h) >= Len(dFin) /\ IsAnc(dFin, h)}   \* only branches the node still accepts
 \* CommitBlock(h) on the durable state (f = the finalized checkpoint read at start-up)
 RECURSIVE Recover(_, _, _)
 Recover(Q, f, todo) ==
